@@ -47,6 +47,7 @@ fn main() {
         "noop" => return,
         "C20" => props::c20::run(&opts),
         "C01" => props::sim::c01(&opts),
+        "C02" => props::sim::c02(&opts),
         "C03" => props::sim::c03(&opts),
         "C04" => props::sim::c04(&opts),
         "C05" => props::sim::c05(&opts),
@@ -58,9 +59,11 @@ fn main() {
         "C11" => props::c11::run(&opts),
         "C12" => props::c12::run(&opts),
         "C13" => props::c13::run(&opts),
+        "C14" => props::c14::run(&opts),
         "C15" => props::c15::run(&opts),
         "C17" => props::c17::run(&opts),
         "C16" => props::sim::c16(&opts),
+        "C19" => props::c19::run(&opts),
         "C18" => props::sim::c18(&opts),
         other => {
             eprintln!("unknown property {}", other);
